@@ -269,6 +269,39 @@ def check_k3(chk, m, cfg, L):
     heads = sorted(fn.loops_headers())
     segs = paths.enumerate_segments(fn, m, call_effects={"strlen": [], "__ctype_b_loc": []})
     n = 0
+    # is argv indexed by the argc field (then 1 <= argc <= N-1 is the loop invariant to re-establish) or by a local counter
+    # (then each store is bounded by the conditions of its own segment and the counter's monotone lower bound)?
+    uses_argc_field = False
+    for start, p in segs:
+        for e in p.events:
+            if e.kind == "store" and e.ptr is not None:
+                root, off, var = ptr_parts(e.ptr)
+                if root == ("arg", ca) and argv_off <= off < argv_off + argv_sz and var and \
+                        paths.contains(var[0][0], lambda x: x[0] == "ld" and x[1] == argc_ptr):
+                    uses_argc_field = True
+
+    def sym_lower_bound(name):
+        """Lower bound of a loop-carried counter: its constant initial values, if every other incoming value is the counter
+        itself plus a non-negative constant."""
+        phi = fn.defs.get(name)
+        if phi is None or phi.op != "phi":
+            return None
+        lo = None
+        for v, b in phi.incoming:
+            if v.is_const_int():
+                sv = v.sval
+                lo = sv if lo is None else min(lo, sv)
+            elif v.k == "inst":
+                d = v.inst
+                if d is phi:
+                    continue
+                if d is not None and d.op == "add" and d.ops[0].k == "inst" and d.ops[0].name == name and d.ops[1].is_const_int() \
+                        and d.ops[1].sval >= 0:
+                    continue
+                return None
+            else:
+                return None
+        return lo
     for start, p in segs:
         sid = "do_tokenize[%s] %s -> %s" % (cfg, start.lstrip("%"), p.end)
         pr = Prover()
@@ -301,6 +334,9 @@ def check_k3(chk, m, cfg, L):
             for k in a.atoms() | b.atoms():
                 if k.startswith("sym:"):
                     pr.assume_ge0(Lin.atom(k))
+                    lb = sym_lower_bound(k[4:])
+                    if lb is not None and lb > 0:
+                        pr.assume_le(Lin.const(lb), Lin.atom(k))
         for e in p.events:
             if e.kind == "store" and e.ptr is not None:
                 root, off, var = ptr_parts(e.ptr)
@@ -325,8 +361,8 @@ def check_k3(chk, m, cfg, L):
                                        e.inst.loc, fn.name)
                             else:
                                 chk.unknown("K3.argv-store", sid, "index %s of argv not decided" % idx, e.inst.loc)
-        # invariant re-established on arrival at the first loop head
-        if p.end.startswith("cut:") and heads and p.end == "cut:" + heads[0] or (p.end.startswith("cut:") and len(heads) == 1):
+        # invariant re-established on arrival at the first loop head (only when argv is indexed by the argc field itself)
+        if uses_argc_field and (p.end.startswith("cut:") and heads and p.end == "cut:" + heads[0] or (p.end.startswith("cut:") and len(heads) == 1)):
             fin = None
             for e in p.events:
                 if e.kind == "store" and e.ptr == argc_ptr:
@@ -666,19 +702,29 @@ def check_k8(chk, m, cfg, L):
         chk.unknown("K8.tokeniser", "do_tokenize[%s]" % cfg, why, l or loc)
 
     # --- classify the atoms used by the loop body --------------------------------------------------------------
+    def pos_kind(ptr):
+        """('cur'|'prev', loop variable) if ptr addresses the character at the walk position / the one before it, for an index
+        walk (buf[i], buf[i-1]) or a pointer walk (*p, p[-1]); None for other addresses; _Dont for other line subscripts"""
+        root, off, var = ptr_parts(ptr)
+        if root == ("arg", ca) and off == buf_off and len(var) == 1 and var[0][1] == 1:
+            x = strip_casts(var[0][0])
+            if x[0] == "sym":
+                return ("cur", x[1])
+            if x[0] == "b" and x[1] == "sub" and strip_casts(x[3])[0] == "sym" and x[4][0] == "c" and x[4][2] == 1:
+                return ("prev", strip_casts(x[3])[1])
+            raise _Dont("the tokeniser reads the line at subscript %s (only [i] and [i-1] are modelled)" % fmt(x))
+        if root[0] == "sym" and not var and root[1] in ptr_walkers:
+            if off == 0:
+                return ("cur", root[1])
+            if off == -1:
+                return ("prev", root[1])
+            raise _Dont("the tokeniser reads the line at p%+d (only *p and p[-1] are modelled)" % off)
+        return None
+
     def char_atom(e):
-        """'cur' / 'prev' for loads of buf[i] / buf[i-1]; (None) otherwise; raises _Dont for other subscripts"""
-        if e[0] != "ld":
+        if e[0] != "ld" or e[2] != 1:
             return None
-        root, off, var = ptr_parts(e[1])
-        if root != ("arg", ca) or off != buf_off or len(var) != 1 or var[0][1] != 1:
-            return None
-        x = strip_casts(var[0][0])
-        if x[0] == "sym":
-            return ("cur", x[1])
-        if x[0] == "b" and x[1] == "sub" and strip_casts(x[3])[0] == "sym" and x[4][0] == "c" and x[4][2] == 1:
-            return ("prev", strip_casts(x[3])[1])
-        raise _Dont("the tokeniser reads the line at subscript %s (only [i] and [i-1] are modelled)" % fmt(x))
+        return pos_kind(e[1])
 
     def is_ctype_entry(e):
         if e[0] != "ld":
@@ -689,6 +735,11 @@ def check_k8(chk, m, cfg, L):
                 and var[0][1] == 2:
             return var[0][0]
         return None
+    ptr_walkers = set()
+    for k, v0 in entry[0].carried.items():
+        r0, o0, v_ = ptr_parts(v0) if isinstance(v0, tuple) and v0 and v0[0] in ("p", "arg") else ((None,), 0, ())
+        if r0 == ("arg", ca) and buf_off <= o0 < buf_off + L["scratch.buf"][1] and not v_:
+            ptr_walkers.add(k)
     ivars = set()
     consts = set()
     try:
@@ -748,12 +799,22 @@ def check_k8(chk, m, cfg, L):
     lensym = None
     for c, taken, inst in body[0].conds[:1]:
         cc = strip_casts(c)
-        if cc[0] == "icmp" and strip_casts(cc[2]) == ("sym", ivar) and strip_casts(cc[3])[0] in ("sym", "call"):
+        if cc[0] == "icmp" and cc[1] in ("ult", "slt") and strip_casts(cc[2]) == ("sym", ivar):
             lensym = strip_casts(cc[3])
     if lensym is None:
         unknown("loop condition is not 'i < strlen(line)'")
         return
 
+    # the argument counter: the argc field itself, or a loop-carried local that indexes argv
+    counter_var = None
+    for p in body:
+        for e in p.events:
+            if e.kind == "store" and e.ptr is not None:
+                root, off, var = ptr_parts(e.ptr)
+                if root == ("arg", ca) and argv_off <= off < argv_off + argv_sz and len(var) == 1:
+                    syms = [x[1] for x in paths.subexprs(var[0][0]) if x[0] == "sym" and x[1] in statevars]
+                    if syms and not paths.contains(var[0][0], lambda x: x[0] == "ld" and x[1] == argc_ptr):
+                        counter_var = syms[0]
     pure = paths.pure_functions(m)
     pure_paths = {}
 
@@ -828,7 +889,7 @@ def check_k8(chk, m, cfg, L):
             if e.ptr == argc_ptr:
                 nargc = paths.eval_concrete(e.val, env) & 0xffffffff
                 continue
-            if root == ("arg", ca) and off == buf_off and len(var) == 1 and strip_casts(var[0][0]) == ("sym", ivar):
+            if pos_kind(e.ptr) == ("cur", ivar):
                 v = paths.eval_concrete(e.val, env) & 0xff
                 if v != 0:
                     raise _Dont("the tokeniser rewrites a character with %d" % v)
@@ -836,27 +897,39 @@ def check_k8(chk, m, cfg, L):
                 continue
             if root == ("arg", ca) and argv_off <= off < argv_off + argv_sz and len(var) <= 1:
                 slot = (off - argv_off) // m.ptr_size + (paths.eval_concrete(var[0][0], env) if var else 0)
-                tgt = ptr_parts(e.val)
-                if not (tgt[0] == ("arg", ca) and tgt[1] == buf_off and len(tgt[2]) == 1 and strip_casts(tgt[2][0][0]) == ("sym", ivar)):
+                try:
+                    tok_here = pos_kind(e.val) == ("cur", ivar)
+                except _Dont:
+                    tok_here = False
+                if not tok_here:
                     return ("TOK?", "argv[%d] = %s" % (slot, fmt(e.val))), None, None, None, False
                 if slot != argc:
                     return ("TOK?", "argv[%d] written while argc == %d" % (slot, argc)), None, None, None, False
                 out = "TOK"
                 continue
             raise _Dont("store to %s in the tokeniser loop is not modelled" % fmt(e.ptr))
-        if out == "TOK" and nargc != argc + 1:
+        if counter_var is None and out == "TOK" and nargc != argc + 1:
             return ("TOK?", "argc goes from %d to %d at a token start" % (argc, nargc)), None, None, None, False
-        if out != "TOK" and nargc != argc:
+        if counter_var is None and out != "TOK" and nargc != argc:
             return ("TOK?", "argc changes without a token start"), None, None, None, False
         cont = p.end == "cut:" + H
         nstate = tuple(paths.eval_concrete(p.carried[k], env) & 0xff for k in statevars) if cont else state
+        if counter_var is not None and cont:
+            nargc = nstate[statevars.index(counter_var)]
+            if out == "TOK" and nargc != argc + 1:
+                return ("TOK?", "the argument counter goes from %d to %d at a token start" % (argc, nargc)), None, None, None, False
+            if out != "TOK" and nargc != argc:
+                return ("TOK?", "the argument counter changes without a token start"), None, None, None, False
         return out, nstate, nprev, nargc, cont
 
     # --- prologue ---------------------------------------------------------------------------------------------
     e0 = entry[0]
     try:
         init_state = tuple(paths.eval_concrete(e0.carried[k], {}) & 0xff for k in statevars)
-        argc0 = [paths.eval_concrete(e.val, {}) for e in e0.events if e.kind == "store" and e.ptr == argc_ptr][-1]
+        if counter_var is not None:
+            argc0 = init_state[statevars.index(counter_var)]
+        else:
+            argc0 = [paths.eval_concrete(e.val, {}) for e in e0.events if e.kind == "store" and e.ptr == argc_ptr][-1]
     except (paths.NoValue, IndexError):
         unknown("prologue does not set argc and the loop state to constants")
         return
@@ -923,7 +996,8 @@ def check_k8(chk, m, cfg, L):
                 for e in p.events:
                     if e.kind == "store" and ptr_parts(e.ptr)[0] == ("arg", ca) and argv_off <= ptr_parts(e.ptr)[1] < argv_off + argv_sz:
                         tgt = ptr_parts(e.val)
-                        ok = tgt[0] == ("arg", ca) and tgt[1] == buf_off and len(tgt[2]) == 1 and strip_casts(tgt[2][0][0]) == lensym
+                        ok = (tgt[0] == ("arg", ca) and tgt[1] == buf_off and len(tgt[2]) == 1 and strip_casts(tgt[2][0][0]) == lensym) \
+                            or strip_casts(e.val) == lensym
                         chk.ob("K8.padding", "do_tokenize[%s]" % cfg, ok, "unused argv entries point at the line's terminating NUL"
                                if ok else "unused argv entries are set to %s, not to the empty string at the end of the line" % fmt(e.val),
                                e.inst.loc, fn.name)
